@@ -58,7 +58,7 @@ def main(ctx, order=ORDER, pid=PID, tags=TAGS, maxl=MAXL, props="C02All", oracle
     for LA in range(maxl + 1):
         for LB in range(maxl + 1):
             # ECP angular momentum below, at and above the basis angular momentum
-            scases.append(dc.make_case(srng, LA, LB, dc.BRANCHES[(LA + 2 * LB) % 5] if (LA + LB) % 3 else "distinct", ecpL=[1, 2, 3, 0][(LA + LB) % 4]))
+            scases.append(dc.make_case(srng, LA, LB, dc.BRANCHES[(LA + 2 * LB) % 5] if (LA + LB) % 3 else "distinct", ecpL=[1, 2, 3, 0][(LA + 2 * LB) % 4]))   # LA = LB = 1 meets a purely local ECP (engine with maxLU = 0)
     with ThreadPoolExecutor(16) as ex:
         sres = list(ex.map(lambda c: dc.shift_check(drv, c, order), scases))
     shift_fail, shift_worst, nshift = [], 0.0, 0
@@ -93,7 +93,7 @@ def main(ctx, order=ORDER, pid=PID, tags=TAGS, maxl=MAXL, props="C02All", oracle
         kind = [("general", "general"), ("on", "general"), ("general", "on"), ("axis", "plane")][i % 4]
         A = pl.rand_shell(prng, LA, pl.place(prng, C, kind[0]))
         B = pl.rand_shell(prng, LB, pl.place(prng, C, kind[1])) if i % 5 else dict(A, l=LB)
-        pcases.append(dict(maxLB=mb, maxLU=prng.randint(1, 3), deriv=order, sa=sa, sb=sb, ecp=pl.rand_ecp(prng, prng.randint(1, 3), C), A=A, B=B, kind=list(kind)))
+        pcases.append(dict(maxLB=mb, maxLU=prng.randint(0, 3), deriv=order, sa=sa, sb=sb, ecp=pl.rand_ecp(prng, prng.randint(1, 3), C), A=A, B=B, kind=list(kind)))
     for c in pcases:
         c["ecp"]["prims"] = [p for p in c["ecp"]["prims"] if p[1] <= c["maxLU"]] or [[2, 0, 1.0, 1.0]]
     pcases.sort(key=lambda c: (c["maxLB"], c["maxLU"]))
